@@ -4,6 +4,21 @@ import json, os
 
 # id -> (technique, level text, design ref)   -- only properties whose rules are built and armed
 CLAIMED = {
+ "C14": ("interval-class abstract interpretation of the three encoders and of the UTF-8 decoder callback; regexp literals parsed from source constants; table agreement (pass-through set vs decoder specials/separators, escape width vs decoder acceptance); field/key pairing",
+         "Character-class level agreement of encoders and decoders decided exhaustively over all scalar values (both sides only compare with constants), plus client/server pairing of option fields and keys. Equality of whole option structs, mailbox syntax and time-zone rendering are NOT decided.",
+         "DESIGN.md §3 C14"),
+ "C15": ("whitelist taint over the resolved program (leaf sources through phis/cells, sanitiser table), edge-feasibility for extension gates and validate-first, path counting of commands",
+         "No unsanitised dynamic string can reach a client command line; validation failures and missing REQUIRETLS/SMTPUTF8 reach no write; one command per step; every parameter token gated by the matching EHLO keyword. The SASL mechanism name and non-CR/LF octets are outside.",
+         "DESIGN.md §3 C15"),
+ "C16": ("value flow of the data writer, must-pass-through for the closed flag, path counting of reply reads, order/flow rules in SendMail",
+         "Structural conditions of the client DATA path on every path; stuffing itself is net/textproto's (trusted) and the receiving half is C01's table.",
+         "DESIGN.md §3 C16"),
+ "C17": ("value flow of error fields into replies, sibling format agreement between writeResponse and toSMTPErr, who-may-call for ReadResponse",
+         "Pass-through of SMTPError fields and generic codes decided by value flow at every site; every reply line with an enhanced code carries it (what the client's parser assumes). Unusual message shapes at value level are not decided.",
+         "DESIGN.md §3 C17"),
+ "C18": ("lifecycle rule for Client.rcpts (who-may-write + cleared at a transaction boundary on all paths), affine loop shape of the LMTP reply loop, leaf-source flow of the per-recipient error",
+         "Structural conditions for correct per-transaction attribution in the LMTP client decided on every path.",
+         "DESIGN.md §3 C18"),
  "C11": ("switch exhaustiveness, per-case value flow of option fields, edge-feasibility of decoder/parser failure edges, whitelist comparison rules",
          "Parameter dispatch, flow and error discipline of the MAIL/RCPT handlers decided for every case and failure edge. Which strings the hand-written path/mailbox parser accepts versus the RFC 5321 grammar is a whole-language question and is NOT decided.",
          "DESIGN.md §3 C11"),
